@@ -83,8 +83,22 @@ fn u19_1_seek_cursor() {
     let use_high: bool = kani::any();
     let method: u32 = kani::any();
     let hp = if use_high { &mut high as *mut i32 } else { core::ptr::null_mut() };
+    let high0 = high;
     let _ = unsafe { blk_seek_cursor_len(&mut fh, file_pos, hp, method) };
     assert!(fh.position <= len, "cursor stays inside the data after any seek");
+    // an in-range target is reached exactly: for a 64-bit offset given either as the low part alone or as a
+    // (low, high) pair that is the two halves of one sign-extended value, base + offset inside [0, len] is the new cursor
+    let consistent = !use_high || (high0 == -1 && file_pos < 0) || (high0 == 0 && file_pos >= 0);
+    if consistent && method <= 2 {
+        let base: i128 = if method == 0 { 0 } else if method == 1 { position as i128 } else { len as i128 };
+        let target = base + file_pos as i128;
+        if target >= 0 && target <= len as i128 {
+            assert!(fh.position as i128 == target, "a seek to a position inside the file lands exactly there");
+        }
+    }
+    if method > 2 {
+        assert!(fh.position == position, "an unknown move method leaves the cursor alone");
+    }
 }
 
 /// length-only stand-in for FileHandle.data in the seek block (the block uses data.len() only)
@@ -99,4 +113,28 @@ impl LenOnly {
 pub struct FileHandleLen {
     pub data: LenOnly,
     pub position: usize,
+}
+
+/// size-only stand-in for FileHandle in the SFileGetFileSize block (the block reads .size only)
+pub struct SizeOnly {
+    pub size: u64,
+}
+
+// @harness unit=U19.1 props=C19 kind=complete timeout=120 target="lib.rs: SFileGetFileSize size-splitting block (E11): every u64 size, high pointer null or not" oracle=ffi_cursor
+#[kani::proof]
+#[kani::unwind(4)]
+#[kani::stub(alloc::fmt::format, stub_format)]
+fn u19_1_get_size_high() {
+    let fh = SizeOnly { size: kani::any() };
+    let mut high: u32 = kani::any();
+    let high0 = high;
+    let use_high: bool = kani::any();
+    let hp = if use_high { &mut high as *mut u32 } else { core::ptr::null_mut() };
+    let size = unsafe { blk_get_size(&fh, hp) };
+    assert!(size == fh.size, "the size reported is the handle's size");
+    if use_high {
+        assert!(high == (fh.size >> 32) as u32, "*high always receives the upper 32 bits (0 for small files)");
+    } else {
+        assert!(high == high0, "a null high pointer is not written through");
+    }
 }
